@@ -189,12 +189,18 @@ def run_scenario(hist, sc, tzname, real_tm, stats):
         for r in h["rows"]:
             exp.append((r["marker"], stamp))
     got = list(zip(df["marker"].tolist(), df["last_modified"].tolist()))
-    if [m for m, _ in got] != [m for m, _ in exp]:
+    # which rows come back is stated by the property (each once); the order of the rows in the frame is not
+    if sorted(m for m, _ in got) != sorted(m for m, _ in exp):
         gm, em = [m // 10 for m, _ in got], [m // 10 for m, _ in exp]
-        out.append(("wrong_versions_downloaded", f"rows of versions {sorted(set(gm))} returned, expected versions {sorted(set(em))} (sample {sc['sample']}, failing {sc['fail']}, page size {sc['page']})",
+        out.append(("wrong_versions_downloaded", f"rows of versions {sorted(set(gm))} returned ({len(gm)} rows), expected versions {sorted(set(em))} ({len(em)} rows) "
+                                                 f"(sample {sc['sample']}, failing {sc['fail']}, page size {sc['page']})",
                     dict(flags, sample=sc["sample"], failing=bool(sc["fail"]))))
     else:
-        for (m, g), (_, e) in zip(got, exp):
+        if [m for m, _ in got] != [m for m, _ in exp]:
+            stats.probes["rows_returned_in_another_order_than_listed"] += 1
+        want_stamp = dict(exp)
+        for m, g in got:
+            e = want_stamp[m]
             if pd.Timestamp(g) != pd.Timestamp(e) or str(pd.Timestamp(g).tzinfo) != str(pd.Timestamp(e).tzinfo):
                 out.append(("wrong_timestamp", f"row {m}: stamped {g} but its version was modified {e}", flags))
                 break
@@ -207,7 +213,7 @@ def run_scenario(hist, sc, tzname, real_tm, stats):
         try:
             df2 = util.get(KEY, sample=sc["sample"])
             want2 = [r["marker"] for v in sampled for r in by_vid[v]["rows"]]
-            if df2 is None or df2["marker"].tolist() != want2:
+            if df2 is None or sorted(df2["marker"].tolist()) != sorted(want2):
                 out.append(("state_after_failed_downloads", f"after the failing downloads stopped failing, a second get() on the same object returned versions "
                                                             f"{sorted(set(m // 10 for m in (df2['marker'].tolist() if df2 is not None else [])))} instead of {sorted(set(m // 10 for m in want2))}", flags))
             stats.probes["second_get_after_faults_stopped"] += 1
